@@ -51,6 +51,14 @@ func init() {
 				{{"d", 32768}, {"p", 1}, {"d", 32768}}, {{"s", 60000}, {"p", 60001}}, {{"d", 1023}}, {{"d", 1025}, {"r", 1}}} {
 				cases = append(cases, Case{"key": supportedKeys[(i*5)%28], "runs": rr}, Case{"key": supportedKeys[(i*11+3)%28], "runs": rr})
 			}
+			for _, k := range supportedKeys { // exactly at the 2^16 boundary, from every key (every target, one- and two-spelling)
+				for _, n := range []int{65535, 65536, 65537} {
+					if c.quick() && n != 65536 {
+						continue
+					}
+					cases = append(cases, Case{"key": k, "runs": [][]any{{"d", n}}})
+				}
+			}
 			for i := 0; i < nrand; i++ {
 				n := maxLen + 1 + rng.Intn(maxRand-maxLen)
 				var sb strings.Builder
@@ -80,7 +88,12 @@ func init() {
 				return []Rec{{"kind": "longchain", "sub": fmt.Sprint(cs(k, "key"), k["runs"]), "key": chars(cs(k, "key")), "runs": runs, "terminated": !r.TimedOut,
 					"ok": r.Exit == 0 && len(r.Stdout) > 0 && !r.Panic, "out": out, "stdoutLen": len(r.Stdout), "stderrLen": len(r.Stderr)}}
 			}
-			r := c.crd([]string{"info", "key", "conv", "--key", cs(k, "key"), "-c", cs(k, "chain")}, nil)
+			args := []string{"info", "key", "conv", "--key", cs(k, "key"), "-c", cs(k, "chain")}
+			if h := len(cs(k, "chain"))*7 + len(cs(k, "key")); h%8 == 5 && cs(k, "chain") != "" {
+				// the flag given twice: the last mention is the chain
+				args = []string{"info", "key", "conv", "--key", cs(k, "key"), "-c", "spr", "-c", cs(k, "chain")}
+			}
+			r := c.crd(args, nil)
 			chain := []string{}
 			for _, x := range cs(k, "chain") {
 				chain = append(chain, string(x))
